@@ -964,4 +964,471 @@ theorem runOverlap_whole {g : Row → List Row → Row} (hg : Keeps g) {wl wr : 
     rw [this, hrows, perRow_eq_ctxMap, allRows_cons]
     simp
 
+/-! ## §7 multi-output plugins: the chunks of one result are aligned -/
+
+def keys {α : Type} (d : Dict α) : List String := d.map (·.1)
+
+theorem dictGet_dictSet {α : Type} (d : Dict α) (k k' : String) (v : α) :
+    dictGet (dictSet d k v) k' = if k' = k then some v else dictGet d k' := by
+  induction d with
+  | nil =>
+    simp only [dictSet, dictGet]
+    by_cases h : k' = k
+    · subst h; simp
+    · have : (k == k') = false := by simp; exact fun e => h e.symm
+      simp [h, this]
+  | cons p d ih =>
+    obtain ⟨k0, v0⟩ := p
+    simp only [dictSet]
+    by_cases h0 : (k0 == k) = true
+    · have e0 : k0 = k := by simpa using h0
+      subst e0
+      simp only [beq_self_eq_true, if_true, dictGet]
+      by_cases h : k' = k0
+      · subst h; simp
+      · have : (k0 == k') = false := by simp; exact fun e => h e.symm
+        simp [h, this]
+    · have h0' : (k0 == k) = false := by simpa using h0
+      simp only [h0', Bool.false_eq_true, if_false, dictGet]
+      by_cases h1 : (k0 == k') = true
+      · have e1 : k0 = k' := by simpa using h1
+        subst e1
+        have : ¬ k0 = k := by simpa using h0'
+        simp [this]
+      · have h1' : (k0 == k') = false := by simpa using h1
+        simp only [h1', Bool.false_eq_true, if_false, ih]
+
+theorem keys_dictSet {α : Type} (d : Dict α) (k : String) (v : α) :
+    keys (dictSet d k v) = if k ∈ keys d then keys d else keys d ++ [k] := by
+  induction d with
+  | nil => simp [dictSet, keys]
+  | cons p d ih =>
+    obtain ⟨k0, v0⟩ := p
+    simp only [dictSet]
+    by_cases h0 : (k0 == k) = true
+    · have e0 : k0 = k := by simpa using h0
+      subst e0
+      simp [keys]
+    · have h0' : (k0 == k) = false := by simpa using h0
+      have hne : ¬ k = k0 := by intro e; subst e; simp at h0'
+      simp only [h0', Bool.false_eq_true, if_false]
+      simp only [keys, List.map_cons, List.mem_cons, hne, false_or] at ih ⊢
+      rw [ih]
+      split <;> simp [*]
+
+theorem mem_of_dictGet {α : Type} {d : Dict α} {k : String} {v : α} (h : dictGet d k = some v) : (k, v) ∈ d := by
+  induction d with
+  | nil => simp [dictGet] at h
+  | cons p d ih =>
+    obtain ⟨k0, v0⟩ := p
+    simp only [dictGet] at h
+    split at h
+    · rename_i hk
+      have e : k0 = k := by simpa using hk
+      simp only [Option.some.injEq] at h
+      subst e h; simp
+    · simp [ih h]
+
+theorem dictGet_of_mem {α : Type} {d : Dict α} {k : String} {v : α} (hnd : (keys d).Nodup) (h : (k, v) ∈ d) :
+    dictGet d k = some v := by
+  induction d with
+  | nil => simp at h
+  | cons p d ih =>
+    obtain ⟨k0, v0⟩ := p
+    simp only [keys, List.map_cons, List.nodup_cons] at hnd
+    simp only [List.mem_cons, Prod.mk.injEq] at h
+    simp only [dictGet]
+    rcases h with ⟨rfl, rfl⟩ | h
+    · simp
+    · have hne : ¬ k0 = k := by
+        intro e; subst e
+        exact hnd.1 (List.mem_map.2 ⟨(k0, v), h, rfl⟩)
+      have : (k0 == k) = false := by simpa using hne
+      simp only [this, Bool.false_eq_true, if_false]
+      exact ih hnd.2 h
+
+theorem keys_dictSet_nodup {α : Type} {d : Dict α} (k : String) (v : α) (h : (keys d).Nodup) :
+    (keys (dictSet d k v)).Nodup := by
+  rw [keys_dictSet]
+  split
+  · exact h
+  · rename_i hk
+    rw [List.nodup_append]
+    refine ⟨h, by simp, ?_⟩
+    intro a ha b hb
+    simp at hb; subst hb
+    intro e; subst e; exact hk ha
+
+theorem keys_dictSet_sub {α : Type} {d : Dict α} (k : String) (v : α) {names : List String}
+    (h : ∀ x ∈ keys d, x ∈ names) (hk : k ∈ names) : ∀ x ∈ keys (dictSet d k v), x ∈ names := by
+  rw [keys_dictSet]
+  split
+  · exact h
+  · intro x hx
+    simp at hx
+    rcases hx with hx | rfl
+    · exact h x (by simpa [keys] using hx)
+    · exact hk
+
+theorem keys_cons {α : Type} (k : String) (v : α) (d : Dict α) : keys ((k, v) :: d) = k :: keys d := rfl
+
+theorem splitAll_spec (t : Int) : ∀ (result cached outs cached' : Dict Chunk),
+    splitAll t result cached = .ok (outs, cached') → (keys result).Nodup → (keys cached).Nodup →
+    (keys cached').Nodup ∧
+    (∀ x ∈ keys cached', x ∈ keys cached ∨ x ∈ keys result) ∧
+    (∀ k, k ∉ keys result → dictGet cached' k = dictGet cached k) ∧
+    (∀ k c1, (k, c1) ∈ outs → ∃ c c2, (k, c) ∈ result ∧ c.split t true = .ok (c1, c2) ∧ dictGet cached' k = some c2) ∧
+    (∀ k, k ∈ keys result → ∃ c c1 c2, (k, c) ∈ result ∧ c.split t true = .ok (c1, c2) ∧ dictGet cached' k = some c2) := by
+  intro result
+  induction result with
+  | nil =>
+    intro cached outs cached' h _ hc
+    simp only [splitAll, Except.ok.injEq, Prod.mk.injEq] at h
+    obtain ⟨rfl, rfl⟩ := h
+    exact ⟨hc, fun x hx => Or.inl hx, fun _ _ => rfl, by simp, by simp [keys]⟩
+  | cons p rest ih =>
+    intro cached outs cached' h hnd hc
+    obtain ⟨k0, c0⟩ := p
+    simp only [splitAll] at h
+    split at h; · cases h
+    rename_i c1 c2 hsp
+    split at h; · cases h
+    rename_i outs' cached'' hrec
+    simp only [Except.ok.injEq, Prod.mk.injEq] at h
+    obtain ⟨rfl, rfl⟩ := h
+    rw [keys_cons, List.nodup_cons] at hnd
+    obtain ⟨i1, i2, i3, i4, i5⟩ := ih _ _ _ hrec hnd.2 (keys_dictSet_nodup k0 c2 hc)
+    have hk0 : dictGet cached'' k0 = some c2 := by
+      rw [i3 k0 hnd.1, dictGet_dictSet]; simp
+    refine ⟨i1, ?_, ?_, ?_, ?_⟩
+    · intro x hx
+      rcases i2 x hx with h | h
+      · rw [keys_dictSet] at h
+        split at h
+        · exact Or.inl h
+        · simp at h
+          rcases h with h | rfl
+          · exact Or.inl (by simpa [keys] using h)
+          · exact Or.inr (by simp [keys_cons])
+      · exact Or.inr (by simp [keys_cons, h])
+    · intro k hk
+      rw [keys_cons, List.mem_cons, not_or] at hk
+      rw [i3 k hk.2, dictGet_dictSet, if_neg hk.1]
+    · intro k c1' hmem
+      rcases List.mem_cons.1 hmem with h | h
+      · simp only [Prod.mk.injEq] at h
+        obtain ⟨rfl, rfl⟩ := h
+        exact ⟨c0, c2, by simp, hsp, hk0⟩
+      · obtain ⟨c, c2', m1, m2, m3⟩ := i4 k c1' h
+        exact ⟨c, c2', by simp [m1], m2, m3⟩
+    · intro k hk
+      rw [keys_cons, List.mem_cons] at hk
+      rcases hk with rfl | hk
+      · exact ⟨c0, c1, c2, by simp, hsp, hk0⟩
+      · obtain ⟨c, c1', c2', m1, m2, m3⟩ := i5 k hk
+        exact ⟨c, c1', c2', by simp [m1], m2, m3⟩
+
+theorem cachePass_keys : ∀ (io : Dict Chunk) (prev : Int) (cached : Dict Chunk) (p' : Int) (cached' : Dict Chunk),
+    cachePass io prev cached = .ok (p', cached') → (keys cached).Nodup →
+    (keys cached').Nodup ∧ ∀ x ∈ keys cached', x ∈ keys cached ∨ x ∈ keys io := by
+  intro io
+  induction io with
+  | nil =>
+    intro prev cached p' cached' h hc
+    simp only [cachePass, Except.ok.injEq, Prod.mk.injEq] at h
+    obtain ⟨rfl, rfl⟩ := h
+    exact ⟨hc, fun x hx => Or.inl hx⟩
+  | cons p rest ih =>
+    intro prev cached p' cached' h hc
+    obtain ⟨k0, c0⟩ := p
+    simp only [cachePass] at h
+    split at h; · cases h
+    rename_i c1 c2 hsp
+    obtain ⟨i1, i2⟩ := ih _ _ _ _ h (keys_dictSet_nodup k0 c2 hc)
+    refine ⟨i1, ?_⟩
+    intro x hx
+    rcases i2 x hx with h | h
+    · rw [keys_dictSet] at h
+      split at h
+      · exact Or.inl h
+      · simp at h
+        rcases h with h | rfl
+        · exact Or.inl (by simpa [keys] using h)
+        · exact Or.inr (by simp [keys_cons])
+    · exact Or.inr (by simp [keys_cons, h])
+
+theorem cacheBeyond_keys : ∀ (n : Nat) (io : Dict Chunk) (prev : Int) (cached : Dict Chunk) (p' : Int) (cached' : Dict Chunk),
+    cacheBeyond n io prev cached = .ok (p', cached') → (keys cached).Nodup →
+    (keys cached').Nodup ∧ ∀ x ∈ keys cached', x ∈ keys cached ∨ x ∈ keys io := by
+  intro n
+  induction n with
+  | zero => intro io prev cached p' cached' h; simp [cacheBeyond] at h
+  | succ n ih =>
+    intro io prev cached p' cached' h hc
+    simp only [cacheBeyond] at h
+    split at h; · cases h
+    rename_i p1 c1 hpass
+    obtain ⟨j1, j2⟩ := cachePass_keys _ _ _ _ _ hpass hc
+    split at h
+    · simp only [Except.ok.injEq, Prod.mk.injEq] at h
+      obtain ⟨rfl, rfl⟩ := h
+      exact ⟨j1, j2⟩
+    · obtain ⟨i1, i2⟩ := ih _ _ _ _ _ h j1
+      refine ⟨i1, ?_⟩
+      intro x hx
+      rcases i2 x hx with h | h
+      · exact j2 x h
+      · exact Or.inr h
+
+theorem mapE_ok_mem {α β : Type} {f : α → Except Err β} : ∀ {l : List α} {r : List β},
+    mapE f l = .ok r → ∀ b ∈ r, ∃ a ∈ l, f a = .ok b := by
+  intro l
+  induction l with
+  | nil => intro r h; simp only [mapE, Except.ok.injEq] at h; subst h; simp
+  | cons a l ih =>
+    intro r h
+    simp only [mapE] at h
+    split at h; · cases h
+    rename_i b hb
+    split at h; · cases h
+    rename_i bs hbs
+    simp only [Except.ok.injEq] at h; subst h
+    intro b' hb'
+    rcases List.mem_cons.1 hb' with rfl | hb'
+    · exact ⟨a, by simp, hb⟩
+    · obtain ⟨a', ha', hf⟩ := ih hbs b' hb'
+      exact ⟨a', by simp [ha'], hf⟩
+
+theorem mapE_ok_map {α β γ : Type} {f : α → Except Err β} {φ : β → γ} {ψ : α → γ}
+    (hf : ∀ a b, f a = .ok b → φ b = ψ a) : ∀ {l : List α} {r : List β},
+    mapE f l = .ok r → r.map φ = l.map ψ := by
+  intro l
+  induction l with
+  | nil => intro r h; simp only [mapE, Except.ok.injEq] at h; subst h; rfl
+  | cons a l ih =>
+    intro r h
+    simp only [mapE] at h
+    split at h; · cases h
+    rename_i b hb
+    split at h; · cases h
+    rename_i bs hbs
+    simp only [Except.ok.injEq] at h; subst h
+    simp only [List.map_cons, hf a b hb, ih hbs]
+
+/-- all chunks of one result share one range -/
+def AlignedD (d : Dict Chunk) : Prop := ∀ p ∈ d, ∀ q ∈ d, p.2.start = q.2.start ∧ p.2.stop = q.2.stop
+
+theorem baseCompute_shape {P : Spec} {kwargs result : Dict Chunk} (h : baseCompute P kwargs = .ok result) :
+    keys result = P.provides.map (·.1) ∧ ∃ A E, A ≤ E ∧ ∀ p ∈ result, p.2.start = A ∧ p.2.stop = E := by
+  unfold baseCompute at h
+  split at h; · cases h
+  rename_i k0 c0 rest
+  simp only at h
+  split at h; · cases h
+  split at h; · cases h
+  split at h; · cases h
+  have hfix : ∀ (A E : Int) (sub : Option Runs) (sup : Runs) (res : Dict (List Row)) (p : String × String) (b : String × Chunk),
+      fixOutput P A E sub sup res p = .ok b → b.1 = p.1 ∧ b.2.start = A ∧ b.2.stop = E ∧ A ≤ E := by
+    intro A E sub sup res p b hb
+    unfold fixOutput at hb
+    split at hb; · cases hb
+    split at hb; · cases hb
+    split at hb; · cases hb
+    rename_i c hc
+    simp only [Except.ok.injEq] at hb; subst hb
+    obtain ⟨-, -, -, f1, f2, -, -, -, f3, -⟩ := mkChunk_fields hc
+    exact ⟨rfl, f1, f2, f3⟩
+  refine ⟨?_, ?_⟩
+  · exact mapE_ok_map (φ := fun b => b.1) (ψ := fun p => p.1) (fun a b hb => (hfix _ _ _ _ _ a b hb).1) h
+  · cases hr : result with
+    | nil => exact ⟨0, 0, Int.le_refl _, by simp⟩
+    | cons q qs =>
+      obtain ⟨a, -, ha⟩ := mapE_ok_mem h q (by rw [hr]; simp)
+      obtain ⟨-, -, -, hle⟩ := hfix _ _ _ _ _ a q ha
+      refine ⟨_, _, hle, ?_⟩
+      intro p hp
+      obtain ⟨a', -, ha'⟩ := mapE_ok_mem h p (by rw [hr]; exact hp)
+      obtain ⟨-, h1, h2, -⟩ := hfix _ _ _ _ _ a' p ha'
+      exact ⟨h1, h2⟩
+
+theorem dropSent_shape {s : Int} {result result' : Dict Chunk} {A E : Int} (hAE : A ≤ E)
+    (hr : ∀ p ∈ result, p.2.start = A ∧ p.2.stop = E) (h : dropSent s result = .ok result') :
+    keys result' = keys result ∧ ∀ p ∈ result', p.2.start = max (min s E) A ∧ p.2.stop = E := by
+  unfold dropSent at h
+  have hf : ∀ (a b : String × Chunk), (match a.2.split s false with
+      | .error e => Except.error e
+      | .ok (_, c2) => Except.ok (a.1, c2)) = Except.ok b → b.1 = a.1 ∧ ∃ c1, a.2.split s false = .ok (c1, b.2) := by
+    intro a b hb
+    split at hb; · cases hb
+    rename_i c1 c2 hsp
+    simp only [Except.ok.injEq] at hb; subst hb
+    exact ⟨rfl, c1, hsp⟩
+  refine ⟨mapE_ok_map (φ := fun b : String × Chunk => b.1) (ψ := fun p : String × Chunk => p.1)
+    (fun a b hb => (hf a b hb).1) h, ?_⟩
+  intro p hp
+  obtain ⟨a, ha, hfa⟩ := mapE_ok_mem h p hp
+  obtain ⟨-, c1, hsp⟩ := hf a p hfa
+  obtain ⟨ha1, ha2⟩ := hr a ha
+  obtain ⟨t', -, hst, -, -, h2s, h2e, -, -⟩ := split_ranges hsp
+  have := hst rfl
+  omega
+
+
+
+/-- one call of a multi-output plugin: the chunks it sends share one range, and so do the chunks
+it withholds -/
+theorem doCompute_multi {P : Spec} {st st' : State} {kwargs out : Dict Chunk} (hm : P.multi = true)
+    (hnd : (P.provides.map (·.1)).Nodup)
+    (hk : (keys st.cachedResults).Nodup ∧ ∀ x ∈ keys st.cachedResults, x ∈ P.provides.map (·.1))
+    (h : doCompute P st kwargs = .ok (out, st')) :
+    AlignedD out ∧ AlignedD st'.cachedResults ∧
+      (keys st'.cachedResults).Nodup ∧ ∀ x ∈ keys st'.cachedResults, x ∈ P.provides.map (·.1) := by
+  unfold doCompute at h
+  simp only [hm, if_true] at h
+  split at h; · cases h
+  split at h; · cases h
+  rename_i kw hprep
+  split at h; · cases h
+  split at h; · cases h
+  rename_i k0 c0 kwrest
+  split at h; · cases h
+  split at h; · cases h
+  rename_i result0 hbase
+  split at h; · cases h
+  rename_i result hdrop
+  split at h; · cases h
+  rename_i prevSplit cached1 hcb
+  split at h; · cases h
+  rename_i out' cached2 hsa
+  split at h; · cases h
+  rename_i huniq
+  split at h; · cases h
+  rename_i x cachedIn hcb2
+  simp only [Except.ok.injEq, Prod.mk.injEq] at h
+  obtain ⟨rfl, rfl⟩ := h
+  simp only
+  obtain ⟨hkeys0, A, E, hAE, hr0⟩ := baseCompute_shape hbase
+  obtain ⟨hkeys, hr⟩ := dropSent_shape hAE hr0 hdrop
+  rw [hkeys0] at hkeys
+  obtain ⟨c1nd, c1sub⟩ := cacheBeyond_keys _ _ _ _ _ _ hcb hk.1
+  obtain ⟨s1, s2, s3, s4, s5⟩ := splitAll_spec prevSplit result cached1 out' cached2 hsa (by rw [hkeys]; exact hnd) c1nd
+  have hsub2 : ∀ x ∈ keys cached2, x ∈ P.provides.map (·.1) := by
+    intro x hx
+    rcases s2 x hx with h | h
+    · rcases c1sub x h with h | h
+      · exact hk.2 x h
+      · rw [hkeys] at h; exact h
+    · rw [hkeys] at h; exact h
+  -- every withheld chunk is the right half of this call's split of its result
+  have hfresh : ∀ p ∈ cached2, ∃ c c1, (p.1, c) ∈ result ∧ c.split prevSplit true = .ok (c1, p.2) := by
+    intro p hp
+    have hpk : p.1 ∈ keys result := by
+      rw [hkeys]; exact hsub2 p.1 (List.mem_map.2 ⟨p, hp, rfl⟩)
+    obtain ⟨c, c1, c2, m1, m2, m3⟩ := s5 p.1 hpk
+    have := dictGet_of_mem s1 (show (p.1, p.2) ∈ cached2 from hp)
+    rw [this] at m3
+    simp only [Option.some.injEq] at m3
+    subst m3
+    exact ⟨c, c1, m1, m2⟩
+  -- the check of the code: all withheld chunks start together
+  have hu : ∀ p ∈ cached2, ∀ q ∈ cached2, p.2.start = q.2.start := by
+    have hu' : uniqueB (cached2.map (·.2.start)) = true := by
+      cases hb : uniqueB (cached2.map (·.2.start)) with
+      | true => rfl
+      | false => rw [hb] at huniq; simp at huniq
+    cases hc2 : cached2 with
+    | nil => simp
+    | cons z zs =>
+      rw [hc2] at hu'
+      simp only [List.map_cons, uniqueB, List.all_eq_true, List.mem_map, beq_iff_eq] at hu'
+      have hz : ∀ p ∈ z :: zs, p.2.start = z.2.start := by
+        intro p hp
+        rcases List.mem_cons.1 hp with rfl | hp
+        · rfl
+        · exact hu' _ ⟨p, hp, rfl⟩
+      intro p hp q hq
+      rw [hz p hp, hz q hq]
+  refine ⟨?_, ?_, s1, hsub2⟩
+  · intro p hp q hq
+    obtain ⟨cp, c2p, mp1, mp2, mp3⟩ := s4 p.1 p.2 hp
+    obtain ⟨cq, c2q, mq1, mq2, mq3⟩ := s4 q.1 q.2 hq
+    obtain ⟨tp, -, -, p1s, p1e, p2s, -⟩ := split_ranges mp2
+    obtain ⟨tq, -, -, q1s, q1e, q2s, -⟩ := split_ranges mq2
+    have e1 := hu _ (mem_of_dictGet mp3) _ (mem_of_dictGet mq3)
+    simp only at e1
+    have := (hr _ mp1).1
+    have := (hr _ mq1).1
+    simp only at *
+    refine ⟨by omega, by omega⟩
+  · intro p hp q hq
+    obtain ⟨cp, c1p, mp1, mp2⟩ := hfresh p hp
+    obtain ⟨cq, c1q, mq1, mq2⟩ := hfresh q hq
+    obtain ⟨tp, htp, -, -, -, -, p2e, -, -⟩ := split_ranges mp2
+    obtain ⟨tq, htq, -, -, -, -, q2e, -, -⟩ := split_ranges mq2
+    have := hr _ mp1
+    have := hr _ mq1
+    simp only at *
+    refine ⟨hu p hp q hq, by omega⟩
+
+
+/-- what every reachable state of a multi-output plugin satisfies -/
+def InvM (P : Spec) (st : State) : Prop :=
+  AlignedD st.cachedResults ∧ (keys st.cachedResults).Nodup ∧ ∀ x ∈ keys st.cachedResults, x ∈ P.provides.map (·.1)
+
+theorem iterLoop_multi {P : Spec} (hm : P.multi = true) (hnd : (P.provides.map (·.1)).Nodup) (kind : String) :
+    ∀ (rest : List Chunk) (st : State) (buf : Chunk) (outs : List (Dict Chunk)) (st' : State),
+    InvM P st → iterLoop P kind st buf rest = .ok (outs, st') → (∀ d ∈ outs, AlignedD d) ∧ InvM P st' := by
+  intro rest
+  induction rest with
+  | nil =>
+    intro st buf outs st' hinv h
+    unfold iterLoop at h
+    split at h; · cases h
+    split at h; · cases h
+    rename_i out st1 hdc
+    simp only at h
+    split at h; · cases h
+    simp only [Except.ok.injEq, Prod.mk.injEq] at h
+    obtain ⟨rfl, rfl⟩ := h
+    obtain ⟨a1, a2, a3, a4⟩ := doCompute_multi hm hnd ⟨hinv.2.1, hinv.2.2⟩ hdc
+    exact ⟨by simpa using a1, a2, a3, a4⟩
+  | cons c rest ih =>
+    intro st buf outs st' hinv h
+    unfold iterLoop at h
+    split at h; · cases h
+    split at h; · cases h
+    rename_i out st1 hdc
+    simp only at h
+    split at h; · cases h
+    split at h; · cases h
+    rename_i outs2 st2 hrec
+    simp only [Except.ok.injEq, Prod.mk.injEq] at h
+    obtain ⟨rfl, rfl⟩ := h
+    obtain ⟨a1, a2, a3, a4⟩ := doCompute_multi hm hnd ⟨hinv.2.1, hinv.2.2⟩ hdc
+    obtain ⟨b1, b2⟩ := ih _ _ _ _ ⟨a2, a3, a4⟩ hrec
+    refine ⟨?_, b2⟩
+    intro d hd
+    rcases List.mem_cons.1 hd with rfl | hd
+    · exact a1
+    · exact b1 d hd
+
+/-- everything a multi-output plugin yields (final flush included) is a dict of aligned chunks -/
+theorem runDicts_multi {P : Spec} (hm : P.multi = true) (hnd : (P.provides.map (·.1)).Nodup) {kind : String}
+    {cs : List Chunk} {ds : List (Dict Chunk)} (h : runDicts P kind cs = .ok ds) : ∀ d ∈ ds, AlignedD d := by
+  unfold runDicts at h
+  split at h; · cases h
+  rename_i c rest
+  split at h; · cases h
+  rename_i outs st hloop
+  simp only [Except.ok.injEq] at h
+  subst h
+  obtain ⟨b1, b2⟩ := iterLoop_multi hm hnd kind rest State.init c outs st
+    ⟨by intro p hp; simp [State.init] at hp, by simp [State.init, keys], by simp [State.init, keys]⟩ hloop
+  intro d hd
+  rcases List.mem_append.1 hd with hd | hd
+  · exact b1 d hd
+  · simp only [List.mem_singleton] at hd
+    subst hd
+    exact b2.1
+
 end Strax.Overlap
